@@ -55,7 +55,9 @@ CONSTANTS N,            \* number of nodes
           Props,        \* the properties whose counterexamples are printed, subset of {"C16","C17","C18"}
           EmitEvery,    \* interesting behaviours are printed with probability 1/EmitEvery (0 = never)
           BUG_NoResetOnDelete,
-          BUG_LacksByFirstOnly    \* TRUE = the pinned verify(): "lacks part of the range" is only FirstIndex() > Range.Start
+          BUG_LacksByFirstOnly,   \* TRUE = the pinned verify(): "lacks part of the range" is only FirstIndex() > Range.Start
+          BugModes                \* subset of BOOLEAN: TRUE = explore the pinned code (the BUG_ constants apply),
+                                  \* FALSE = explore the repaired design; both in one run
 
 VARIABLES st,      \* node -> [f |-> first index (next index when empty), c |-> Seq(Ent)]
           tw,      \* node -> twin store: the same calls applied without the middleware
@@ -64,10 +66,13 @@ VARIABLES st,      \* node -> [f |-> first index (next index when empty), c |-> 
           rot,     \* the at-rest corruption: [n, i, f, m], n = 0 when there is none
           truth,   \* ghost: <<idx, term>> of a leader's checkpoint -> what that leader had stored for the range
           bud,     \* budgets used
+          bug,     \* which of the two models this behaviour belongs to (constant along a behaviour)
           hist     \* the scenario
 
-vars == <<st, tw, mw, leader, term, rot, truth, bud, hist>>
-View == <<st, tw, mw, leader, term, rot, truth, bud>>
+vars == <<st, tw, mw, leader, term, rot, truth, bud, bug, hist>>
+View == <<st, tw, mw, leader, term, rot, truth, bud, bug>>
+NoReset == bug /\ BUG_NoResetOnDelete
+FirstOnly == bug /\ BUG_LacksByFirstOnly
 
 Nodes == 1..N
 
@@ -165,7 +170,7 @@ Verify(n, r) ==
   IF r.wr # <<>> /\ r.wr # r.exp THEN "inflight"
   ELSE IF FirstI(st[n]) > r.s THEN "range"
   ELSE IF \E i \in r.s..(r.e - 1) : ~Has(st[n], i)
-       THEN (IF BUG_LacksByFirstOnly THEN "other" ELSE "range")       \* GetLog fails: log not found
+       THEN (IF FirstOnly THEN "other" ELSE "range")       \* GetLog fails: log not found
   ELSE IF FoldHash(<<>>, [k \in 1..(r.e - r.s) |-> Read(n, r.s + k - 1)]) # r.exp THEN "storage"
   ELSE "ok"
 
@@ -183,10 +188,11 @@ Init == /\ st = [n \in Nodes |-> [f |-> 1, c |-> <<>>]]
         /\ rot = [n |-> 0, i |-> 0, f |-> "t", m |-> "alt1"]
         /\ truth = <<>>
         /\ bud = ZeroBud
+        /\ bug \in BugModes
         /\ hist = <<>>
 
 Room == Len(hist) < MaxSteps
-H(x) == hist' = Append(hist, x)
+H(x) == hist' = Append(hist, x) /\ bug' = bug
 
 PutF(f, k, v) == [x \in DOMAIN f \cup {k} |-> IF x = k THEN v ELSE f[x]]
 
@@ -197,17 +203,18 @@ StoreLogs(n, batch, keys, fail) ==
   LET m == mw[n]
       j0 == NextI(st[n])
       run == Run(batch, m.sum, m.start, <<>>, <<>>)
-      contiguous == \A p \in 1..Len(batch) : batch[p].i = j0 + p - 1
+      b0 == IF EmptyS(st[n]) THEN batch[1].i ELSE j0           \* an empty store accepts any first index
+      contiguous == b0 >= 1 /\ \A p \in 1..Len(batch) : batch[p].i = b0 + p - 1
   IN IF ~run.ok \/ fail \/ ~contiguous
      THEN [ok |-> FALSE, st |-> st[n], tw |-> tw[n], mw |-> m]
-     ELSE LET reps == [p \in 1..Len(run.reps) |-> [run.reps[p] EXCEPT !.tk = keys[run.reps[p].e - j0 + 1]]]
+     ELSE LET reps == [p \in 1..Len(run.reps) |-> [run.reps[p] EXCEPT !.tk = keys[run.reps[p].e - b0 + 1]]]
               m1 == [m EXCEPT !.sum = run.sum, !.start = run.start,
                               !.cnt.cpw = @ + Len(reps),
                               !.wrote = IF TrackWrote THEN @ \cup {run.recs[p] : p \in 1..Len(run.recs)} ELSE @,
                               !.sblk = @ + (IF m.vs = "inrep" THEN 1 ELSE 0)]
           IN [ok |-> TRUE,
-              st |-> [f |-> st[n].f, c |-> st[n].c \o [p \in 1..Len(run.recs) |-> EntOf(run.recs[p])]],
-              tw |-> [f |-> tw[n].f, c |-> tw[n].c \o [p \in 1..Len(batch) |-> EntOf(batch[p])]],
+              st |-> [f |-> IF EmptyS(st[n]) THEN b0 ELSE st[n].f, c |-> st[n].c \o [p \in 1..Len(run.recs) |-> EntOf(run.recs[p])]],
+              tw |-> [f |-> IF EmptyS(tw[n]) THEN b0 ELSE tw[n].f, c |-> tw[n].c \o [p \in 1..Len(batch) |-> EntOf(batch[p])]],
               mw |-> Trig(m1, reps)]
 
 NCps(batch) == Cardinality({p \in 1..Len(batch) : IsCP(batch[p])})
@@ -272,6 +279,7 @@ Replicate(f, k, cor) ==
   IN /\ Room /\ f # leader
      /\ Matches(f)
      /\ Has(st[leader], j0) /\ Has(st[leader], j0 + k - 1)
+     /\ (~EmptyS(st[f]) => Has(st[leader], j0 - 1))     \* raft's prevLogIndex/prevLogTerm check needs the predecessor
      /\ (cor.p # 0 => /\ InFlight /\ bud.cor < MaxCorrupt /\ cor.p <= k /\ ValidAlt(src[cor.p], cor.f, cor.m))
      /\ (Eager /\ mw[f].vs = "idle" => NCps(batch) <= 1)
      /\ st' = [st EXCEPT ![f] = res.st] /\ tw' = [tw EXCEPT ![f] = res.tw] /\ mw' = [mw EXCEPT ![f] = res.mw]
@@ -290,7 +298,7 @@ ChangeLeader(n) ==
 Delete(n, mx, s2, t2) ==
   /\ st' = [st EXCEPT ![n] = s2]
   /\ tw' = [tw EXCEPT ![n] = t2]
-  /\ mw' = IF BUG_NoResetOnDelete \/ mx < mw[n].start THEN mw
+  /\ mw' = IF NoReset \/ mx < mw[n].start THEN mw
            ELSE [mw EXCEPT ![n].sum = <<>>, ![n].start = 0]
 
 (* the first index at which follower f conflicts with the leader: raft deletes [i, last] *)
@@ -468,7 +476,7 @@ TypeOK == /\ \A n \in Nodes : /\ Len(mw[n].ch) <= 1 /\ mw[n].vs \in {"idle", "bu
 
 (* Output channels.  Violations are printed and recorded, TLC keeps going: one run yields   *)
 (* every counterexample state's scenario.                                                    *)
-Cex(name, ok) == IF ok THEN TRUE ELSE PrintT(<<"CEX", ToJson([inv |-> name, h |-> hist])>>)
+Cex(name, ok) == IF ok THEN TRUE ELSE PrintT(<<"CEX", ToJson([inv |-> name, bug |-> bug, h |-> hist])>>)
 EmitCex == /\ ("C16" \in Props => /\ Cex("C16_NoFalseAlarm", C16_NoFalseAlarm)
                                   /\ Cex("C16_LacksIsRange", C16_LacksIsRange)
                                   /\ Cex("C16_LacksNotCorruption", C16_LacksNotCorruption))
@@ -492,6 +500,6 @@ Tags(r, n) == (IF r.eq /\ (bud.tt + bud.th + bud.snap + bud.rs > 0 \/ term > 1) 
          \cup (IF bud.fo + bud.fail > 0 THEN {"refused"} ELSE {})
 EmitInt == (EmitEvery > 0 /\ JustDelivered /\ Len(Deliv(hist[Len(hist)].n)) > 0)
              => LET tg == Tags(LastFacts, hist[Len(hist)].n) IN
-                (tg # {} /\ RandomElement(1..EmitEvery) = 1) => PrintT(<<"INT", ToJson([tags |-> tg, h |-> hist])>>)
+                (tg # {} /\ RandomElement(1..EmitEvery) = 1) => PrintT(<<"INT", ToJson([tags |-> tg, bug |-> bug, h |-> hist])>>)
 
 =============================================================================
